@@ -32,9 +32,10 @@ class Spec(dict):
     pass
 
 
-def spec(np_=1, nl=1, flows=None, tprops='', bprops='', prio=False, tag=''):
+def spec(np_=1, nl=1, flows=None, tprops='', bprops='', prio=False, tag='', derived=False, args=()):
+    """derived: the second parameter is defined by an expression of the first (p1 = p0 + 1) and the third ranges up to it; args: extra ptgpp options"""
     return Spec(np=np_, nl=nl, flows=flows if flows is not None else [flow('RW', [dep('data')], [dep('data')])],
-                tprops=tprops, bprops=bprops, prio=prio, tag=tag)
+                tprops=tprops, bprops=bprops, prio=prio, tag=tag, derived=derived, args=list(args))
 
 
 def classify(sp, lim):
@@ -64,13 +65,20 @@ def render(sp):
     np_, nl = sp['np'], sp['nl']
     params = ['p%d' % i for i in range(np_)]
     zeros = ', '.join(['k'] + ['0'] * (np_ - 1))
+    if sp.get('derived'):
+        zeros = ', '.join((['k', 'k+1'] + ['0'] * (np_ - 2))[:np_])
     out = [HEADER]
     peers = []
     L = []
     L.append('S(%s)%s' % (', '.join(params), (' [%s]' % sp['tprops']) if sp['tprops'] else ''))
     L.append('  p0 = 0 .. NT-1')
     for i in range(1, np_):
-        L.append('  p%d = 0 .. %d' % (i, i % 2))
+        if sp.get('derived') and i == 1:
+            L.append('  p1 = p0 + 1')
+        elif sp.get('derived') and i == 2:
+            L.append('  p2 = 0 .. p1-1')
+        else:
+            L.append('  p%d = 0 .. %d' % (i, i % 2))
     for i in range(nl):
         L.append('  l%d = %s' % (i, ['p0 + %d' % i, '(p0 %% %d)' % (i + 2), 'NT - p0'][i % 3]))
     L.append(': A(p0)')
@@ -278,13 +286,13 @@ def enumerate_specs(lim, tier):
     small = []
     for kind in ('RW', 'READ', 'WRITE', 'CTL'):
         ins_opts = {
-            'RW': [('data', None), ('task', None), ('new', None), ('data', 'tern:task'), ('task', 'tern:new'), ('null', 'tern:task'), ('task', 'bin')],
-            'READ': [('data', None), ('task', None), ('data', 'tern:task'), ('null', 'tern:task'), ('task', 'tern:data')],
+            'RW': [('data', None), ('task', None), ('new', None), ('data', 'tern:task'), ('task', 'tern:new'), ('null', 'tern:task'), ('task', 'bin'), ('data', 'tern:data'), ('new', 'tern:data')],
+            'READ': [('data', None), ('task', None), ('data', 'tern:task'), ('null', 'tern:task'), ('task', 'tern:data'), ('data', 'tern:data')],
             'WRITE': [('new', None), (None, None)],
             'CTL': [('task', None), ('task', 'bin'), ('task', 'rng'), (None, None)],
         }[kind]
         outs_opts = {
-            'RW': [('data', None), ('task', None), ('task', 'bin'), ('task', 'rng'), ('task', 'tern:data'), ('data', 'tern:task'), (None, None)],
+            'RW': [('data', None), ('task', None), ('task', 'bin'), ('task', 'rng'), ('task', 'tern:data'), ('data', 'tern:task'), ('data', 'tern:data'), (None, None)],
             'READ': [(None, None), ('task', None), ('task', 'bin'), ('task', 'rng'), ('task', 'tern:task')],
             'WRITE': [('task', None), ('data', None), ('task', 'rng'), ('task', 'tern:data')],
             'CTL': [('task', None), ('task', 'bin'), ('task', 'rng'), (None, None)],
@@ -311,6 +319,17 @@ def enumerate_specs(lim, tier):
     for i, (tp, bp, pr) in enumerate([('profile = off', '', False), ('high_priority = on', '', True), ('', 'type = CPU', False), ('make_key_fn = my_key', '', False), ('', '', True),
                                       ('profile = off high_priority = on', 'type = CPU', True)] if thorough else [('profile = off', '', True), ('', 'type = CPU', False)]):
         S.append(('opts%d' % i, spec(2, 2, base_fl('', ''), tprops=tp, bprops=bp, prio=pr)))
+    # D. parameter definitions (derived parameter followed by a range that depends on it) x dependency back-end
+    for np_ in ((2, 3, 4) if thorough else (3,)):
+        for fl_i, fl in enumerate([None, base_fl('', '')] if thorough else [None]):
+            S.append(('derived_np%d_f%d' % (np_, fl_i), spec(np_, 1, fl, derived=True)))
+    # E. the non-default dependency back-end (-M index-array) on a spread of the programs above
+    ia = []
+    for n, s in S:
+        pick = n.startswith(('derived', 'k', 'opts', 'props')) or n in ('np1_nl1', 'np2_nl1', 'np%d_nl1' % MP, 'nf2_RW', 'nf%d_RW' % MP, 'nf%d_RW' % (MP + 1), 'ni%d_RW_p1' % MI, 'ni%d_RW_p1' % (MI + 1), 'no%d_RW_p1' % MO, 'no%d_RW_p1' % (MO + 1))
+        if pick:
+            s2 = Spec(s); s2['args'] = ['-M', 'index-array']; ia.append((n + '@ia', s2))
+    S += ia if thorough else [x for x in ia if x[0].startswith('derived')] + [x for x in ia if not x[0].startswith('derived')][::4]
     # de-duplicate by name, keep order
     seen = set(); R = []
     for n, s in S:
